@@ -21,8 +21,8 @@
             C16-F5 (592b6f8: partition / window frame saved around relational arguments), and the plain-aggregate half
             of F1 (8d54bf7).  Their RQs are kept below as c16_regression_*: none of them is tolerated any more. *)
 From Coq Require Import List NArith Bool.
-From PV Require Import Lib.ListX Model.Rq Model.RqWf Model.Lowerer Model.RqEq Model.LowererTrace
-                       Proofs.RqWfProofs Proofs.LowererProofs Proofs.LowererTraceProofs.
+From PV Require Import Lib.ListX Model.Rq Model.RqWf Model.Lowerer Model.RqEq Model.LowererTrace Model.LowererVis
+                       Proofs.RqWfProofs Proofs.LowererProofs Proofs.LowererTraceProofs Proofs.LowererVisProofs.
 Import ListNotations.
 Local Open Scope N_scope.
 
@@ -147,6 +147,24 @@ Print Assumptions trace_replay_gives_closed_rq.
 Theorem rq_eqb_is_equality : forall a b, rq_eqb a b = true -> a = b.
 Proof. exact rq_eqb_sound. Qed.
 Print Assumptions rq_eqb_is_equality.
+
+(* ---- clause 2 (visibility) as an invariant of the machine (Model/LowererVis.v) ----
+   [vstep] = [step] restricted to operations whose emitted transform uses only ids of [fvis], the set visible in the pipeline
+   under construction (From / Join add instance columns, Compute adds its id, Select and Aggregate narrow, a Loop body inherits).
+   FULL STRENGTH, for all operation sequences: a finished strict run is an RQ that satisfies all five clauses. *)
+Theorem strict_runs_emit_wf_rq : forall ops s q, vrun init ops = Some s -> finish s = Some q -> rq_wf q = true.
+Proof. exact strict_runs_emit_wf. Qed.
+Print Assumptions strict_runs_emit_wf_rq.
+
+Theorem strict_step_refines_step : forall s o s', vstep s o = Some s' -> step s o = Some s'.
+Proof. exact vstep_step. Qed.
+Print Assumptions strict_step_refines_step.
+
+(* per program: a trace that replays under the strict machine proves rq_wf of the implementation's RQ *)
+Theorem strict_trace_replay_gives_wf_rq : forall l q,
+  replay_strict_ok l q = true -> (exists s, vrun init (map fst l) = Some s /\ finish s = Some q) /\ rq_wf q = true.
+Proof. exact replay_strict_sound. Qed.
+Print Assumptions strict_trace_replay_gives_wf_rq.
 
 (* ---- utils/id_gen.rs: the generators the SQL back end loads from the RQ it is handed (79f4a51) ---- *)
 
@@ -360,3 +378,19 @@ Example c16_ex_corrupted_trace_does_not_replay :
   replay_verdict (firstn 5 f4_trace ++ [(ODeclare 134 ELit None false false, [BCid 134 2])] ++ skipn 6 f4_trace) f4_head_rq = 6
   /\ replay_verdict (firstn 13 f4_trace) f4_head_rq = 14.
 Proof. vm_compute. auto. Qed.
+
+(* the strict machine: F4's trace replays strictly (so its RQ is rq_wf by strict_trace_replay_gives_wf_rq); an operation
+   that names an id the pipeline's Select has dropped is a step of the loose machine (the id is still in node_mapping) and
+   not of the strict one *)
+Example c16_ex_trace_replays_strictly : replay_strict_ok f4_trace f4_head_rq = true.
+Proof. vm_compute. reflexivity. Qed.
+
+Definition scope_ops : list op :=
+  [ ODeclExtern [s_t] [RSingle (Some s_a); RSingle (Some s_id); RWildcard];
+    OBegin false 1 (Some s_t) (SExisting 0);
+    OPush (TSelect [1]);
+    OPush (TFilter (ERef 0)) ].
+
+Example c16_ex_out_of_scope_use_is_no_strict_step :
+  (exists s, run init scope_ops = Some s) /\ vrun init scope_ops = None /\ (exists s, vrun init (firstn 3 scope_ops) = Some s).
+Proof. vm_compute. repeat split; eexists; reflexivity. Qed.
